@@ -927,3 +927,55 @@ Fixpoint depth (t : dt) : nat :=
   | DMap k v => S (Nat.max (depth k) (depth v))
   | _ => 0
   end.
+
+(** ** The known defects of the [>>] bookkeeping, as decidable classes on values
+    (mirrors lib/props/C18.py [angle_classes]; KNOWN_FINDINGS.txt keys "angle-close:..."). *)
+Fixpoint trailf (t : dt) : nat :=
+  match t with
+  | DArrayAngle u => S (trailf u)
+  | DStruct fs BAngle =>
+      match fs with
+      | [] => 0%nat
+      | _ => S ((fix lst (l : list (option ident * dt)) : nat :=
+                   match l with [] => 0%nat | [(_, u)] => trailf u | _ :: r => lst r end) fs)
+      end
+  | _ => 0%nat
+  end.
+
+Definition even_run (n : nat) : bool := Nat.leb 2%nat n && Nat.even n.
+
+(** [comma]/[bracket]: the printed value is followed by [,] / [[] *)
+Fixpoint angle_defect (pg : bool) (comma bracket : bool) (t : dt) : bool :=
+  (bracket && even_run (trailf t))
+  || (comma && even_run (trailf t) && match t with DStruct _ BAngle => true | _ => false end)
+  || (pg && Nat.leb 3%nat (trailf t))
+  || match t with
+     | DArrayAngle u | DArrayParen u | DNullable u | DLowCard u => angle_defect pg false false u
+     | DArraySquare u _ => angle_defect pg false true u
+     | DMap k v => angle_defect pg true false k || angle_defect pg false false v
+     | DStruct fs _ | DTuple fs =>
+         (fix go (l : list (option ident * dt)) : bool :=
+            match l with
+            | [] => false
+            | [(_, u)] => angle_defect pg false false u
+            | (_, u) :: r => angle_defect pg true false u || go r
+            end) fs
+     | DUnion fs | DNested fs =>
+         (fix go (l : list (ident * dt)) : bool :=
+            match l with
+            | [] => false
+            | [(_, u)] => angle_defect pg false false u
+            | (_, u) :: r => angle_defect pg true false u || go r
+            end) fs
+     | _ => false
+     end.
+
+Definition known_angle_class (d : str) (t : dt) : bool :=
+  angle_defect (str_eqb d (s2l "postgresql")) false false t.
+
+Definition pres_eqb (a b : pres) : bool :=
+  match a, b with
+  | POk t f r, POk t' f' r' => dt_eqb t t' && Bool.eqb f f' && toks_eqb r r'
+  | PErr, PErr => true
+  | _, _ => false
+  end.
